@@ -244,8 +244,18 @@ def decide(label, ob, timeout_ms=20000, twin=False, max_paths=64, prove_defined=
                         if _replays(ob, sym, hyps + [pz], goal, m1, timeout_ms) is not None:
                             out.setdefault("known_present", []).append(kid)
                             reproduced = True
-                    if not reproduced and sat_kids and _replays(ob, sym, hyps, goal, model, timeout_ms) is not None:
-                        out.setdefault("known_present", []).extend(k for k, _, _ in sat_kids)
+                    if not reproduced and _replays(ob, sym, hyps, goal, model, timeout_ms) is not None:
+                        # the first model reproduces; it lies inside a listed region (v2 is not a reproduced sat):
+                        # attribute it to the findings whose predicate it satisfies (the per-finding query may
+                        # have timed out), else to every listed finding of this harness
+                        inside = []
+                        for (kid, _), pz in zip(known, preds):
+                            try:
+                                if z3.is_true(model.eval(pz, model_completion=True)):
+                                    inside.append(kid)
+                            except Exception:
+                                pass
+                        out.setdefault("known_present", []).extend(inside or [k for k, _, _ in sat_kids] or [k for k, _ in known])
                         reproduced = True
                     if reproduced and v2 == "unsat":
                         out["discharged"] += 1
@@ -254,6 +264,8 @@ def decide(label, ob, timeout_ms=20000, twin=False, max_paths=64, prove_defined=
                     if reproduced:
                         out.update(status="inconclusive", detail="known finding present; a model outside it did not reproduce")
                         return out
+                    out.update(status="inconclusive", detail="no counterexample reproduced on concrete values (known-finding harness)")
+                    return out
             rep = _replays(ob, sym, hyps, goal, model, timeout_ms)
             if rep is None:
                 out.update(status="inconclusive", detail="solver model did not reproduce on concrete values")
